@@ -298,7 +298,7 @@ fn run(ctx: &mut Ctx, si: usize, _case: u64) {
     let enc = Enc::ALL[ctx.rng.usize_below(4)];
     match si {
         0 => {
-            let mut o = GenOpts::standard();
+            let mut o = GenOpts::unmodelled();
             o.max_syms = 8;
             let (spec, _) = gen_object(&mut ctx.rng, enc, &o);
             let mut b = build(&spec, &mut ctx.rng);
@@ -326,7 +326,7 @@ fn run(ctx: &mut Ctx, si: usize, _case: u64) {
             judge_file(ctx, &b.bytes, &format!("generated {} + {:?}", enc.name(), log), policy, lazy);
         }
         1 => {
-            let mut o = GenOpts::standard();
+            let mut o = GenOpts::unmodelled();
             o.max_syms = 4;
             o.density = 4;
             let (mut spec, _) = gen_object(&mut ctx.rng, enc, &o);
@@ -343,7 +343,7 @@ fn run(ctx: &mut Ctx, si: usize, _case: u64) {
         _ => {
             // a reader that delivers short reads and fails transiently now and then; every query is retried
             // once: the retry must again read only inside the query's own ranges
-            let mut o = GenOpts::standard();
+            let mut o = GenOpts::unmodelled();
             o.max_syms = 6;
             o.weird_views = false;
             let (spec, _) = gen_object(&mut ctx.rng, enc, &o);
